@@ -107,7 +107,7 @@ def check(R, F):
     for b, blk in enumerate(ss.blocks):
         for st in blk['stmts']:
             if st['k'] == 'assign' and not st['lhs']['p'] and st['lhs']['l'] == 0 and st['rv']['k'] == 'use' and st['rv']['op']['k'] == 'const':
-                rows[const_name(st['rv']['op'])] = paths.dom_guards(ss, b)
+                rows[const_name(st['rv']['op'])] = paths.dom_guards(ss, b, variants=False)
     R.require(any(re.match(r'^Eq\(arg1\.params\.slip,0_usize\) not in \[0\]$', x) for x in rows.get('false', [])) and len(rows.get('false', [])) == 1, 'should-slip', 'server::rrl::Rrl::should_slip|zero-never', ss.where(), 'slip == 0 -> false', 'should_slip does not return false exactly under slip == 0: %s' % rows.get('false'))
     R.require(any(re.match(r'^Eq\(arg1\.params\.slip,1_usize\) not in \[0\]$', x) for x in rows.get('true', [])) and any(re.match(r'^Eq\(arg1\.params\.slip,0_usize\) in \[0\]$', x) for x in rows.get('true', [])), 'should-slip', 'server::rrl::Rrl::should_slip|one-always', ss.where(), 'slip == 1 -> true', 'should_slip does not return true under slip == 1: %s' % rows.get('true'))
     gr = calls_in(ss, 'gen_range')
